@@ -202,6 +202,7 @@ class Run(object):
         self.clock.ms += dt
         name = op[0]
         before = self.io.fetch_error()
+        step_before = bar.get_progress()
         try:
             if name == "start":
                 bar.start()
@@ -231,7 +232,7 @@ class Run(object):
         frames = []
         for t in texts:
             if t == "":
-                if name != "clear" and not (self.kind == "section" and name == "clear"):
+                if name != "clear":
                     raise Problem("frame|blank", "%s wrote a blank frame" % name)
                 continue
             frames.append(self._parse(t))
@@ -250,6 +251,8 @@ class Run(object):
             self.last_frame = frames[-1]
             self.last_frame_ms = now
             self.frames += len(frames)
+        if name == "finish" and step < step_before:
+            raise Problem("finish|progress-lost", "finish moved the bar back from step %d to %d" % (step_before, step))
         if name == "finish" and self.kind != "quiet":
             if not frames and self.kind in ("ansi", "section"):
                 raise Problem("finish|no-frame", "finish drew nothing")
